@@ -16,7 +16,7 @@ logger = logging.getLogger(__name__)
 
 def _select_bonding_operator(bonds, probabilities=None):
     if probabilities:
-        probs = np.array([probabilities.get(bond_type, 0) for bond_type in bonds])
+        probs = np.array([probabilities.get(bond_type, 0) for bond_type in bonds], dtype=float)
         probs = probs / sum(probs)
         bonding = random.choices(bonds, weights=probs)[0]
     else:
